@@ -178,6 +178,7 @@ FIND_SRCS = {
     'expr': 'x = (a + b) * c\ny\n',
     'block': 'if a:\n    b = [1,\n         2]\nc\n',
     'deco': '@d\ndef f(p, q=1): return p\n',
+    'callmix': 'f(k=1, *a, *b, *c)\n',
 }
 
 
@@ -268,4 +269,4 @@ for _k in FIND_SRCS:
     for _w in ('contains', 'in'):
         CELLS.append(Cell(f'T2.find_{_w}[{_k}]', _mk_find(_k, _w), 'P', ['fst.fst.FST.find_contains_loc', 'fst.fst.FST.find_in_loc', 'fst.fst.FST.find_loc'],
                           f'carrier {FIND_SRCS[_k]!r}; query rectangle (ln, col, end_ln, end_col) symbolic within the source area (cols 0..12); allow_exact in {{False, True, "top"}}',
-                          tier='quick' if _k == 'expr' else 'thorough', budget=600, per_path=60, out='other programs; rectangles outside the source', reset=pc.reset_globals))
+                          tier='quick' if _k in ('expr', 'callmix') else 'thorough', budget=600, per_path=60, out='other programs; rectangles outside the source', reset=pc.reset_globals))
